@@ -415,7 +415,14 @@ def St.onEvent (st : St) (ev : Ev) : Option St :=
     | some s =>
       let rt := s.line.right
       ({ st with incoming := st.incoming ++ [ev.seg] }).modifyChain s.info.chainIdx (fun c => fixTop c rt)
-  | .lineLeft => some { st with outgoing := st.outgoing ++ [ev.seg] }
+  | .lineLeft =>
+    -- `seg.payload().help.set(None); seg.payload().helper_chain.set(None); outgoing.push(seg)` (fix of C10-K2:
+    -- the right part of a split segment starts with a copy of the payload of the segment it was cut from)
+    match st.segs[ev.seg]? with
+    | none => none
+    | some s =>
+      some { st with segs := st.segs.set ev.seg { s with info := { s.info with help := none, helperChain := none } },
+                     outgoing := st.outgoing ++ [ev.seg] }
   | _ => none   -- unreachable!("unexpected event type")
 
 /-! ### `handle_event` and `next_point` -/
